@@ -6,7 +6,7 @@
    vm_compute evaluation of the same model inside Coq. *)
 From Coq Require Extraction.
 From Coq Require Import ExtrOcamlBasic ExtrOcamlZBigInt.
-From Dec Require Import L3.Store.
+From Dec Require Import L3.Store L5.Context.
 
 (* Two further constants, for speed on operands of thousands of words (Coq's
    Z.log2 and Z.pow recurse on the binary representation): *)
@@ -16,4 +16,4 @@ Extract Constant Z.pow =>
   "(fun x y -> if Big_int_Z.sign_big_int y < 0 then Big_int_Z.zero_big_int else Big_int_Z.power_big_int_positive_big_int x y)".
 
 Extraction Blacklist List String Int Z Big.
-Extraction "model.ml" run step get set wf_b strip_low.
+Extraction "model.ml" run step get set wf_b strip_low crun cstep ctx_new.
